@@ -14,6 +14,7 @@ import IndicatifModel.Model.BarGeo
 import IndicatifModel.Model.Adaptors
 import IndicatifModel.Model.IterWrap
 import IndicatifModel.Model.Estimator
+import IndicatifModel.Model.Render
 /-! Line-protocol driver: one case per input line, one model observation per output line. -/
 open IndicatifModel
 
@@ -471,6 +472,46 @@ def runITERS (args : List String) : String :=
     | _, _, _, _ => "bad-op"
   | _ => "bad-op"
 
+/-- `RENDER W tab tpl=<cps> msg=<cps> prefix=<cps> pos=<n> len=<n> foo=<cps> fill=<cp> cw=<cp:w,…>` (texts as code
+points separated by commas, `-` = empty) → the lines `format_state` produces, for the keys msg, prefix, pos, len, bar
+(all progress characters `fill`), the custom key `foo`, the two wide keys, and unknown keys -/
+def runRENDER (toks : List String) : String :=
+  let kv (k : String) : Option String := (toks.find? (fun t => t.startsWith (k ++ "="))).map (fun t => (t.drop (k.length + 1)).toString)
+  let cpsOf (v : String) : List Nat := if v = "-" then [] else (v.splitOn ",").filterMap String.toNat?
+  match toks with
+  | w :: tab :: _ =>
+    match w.toNat?, tab.toNat?, kv "tpl", kv "msg", kv "prefix", (kv "pos").bind String.toNat?, (kv "len").bind String.toNat?, kv "foo", (kv "fill").bind String.toNat?, kv "cw" with
+    | some W, some tabw, some tpl, some msg, some pfx, some pos, some len, some foo, some fill, some cwv =>
+      let table : List (Nat × Nat) := if cwv = "-" then [] else (cwv.splitOn ",").filterMap (fun t => match t.splitOn ":" with
+        | [a, b] => do some ((← a.toNat?), (← b.toNat?))
+        | _ => none)
+      let cw (cp : Nat) : Nat := match table.find? (fun e => e.1 = cp) with
+        | some e => e.2
+        | none => 1
+      let g (cp : Nat) : Pad.G := { cp := cp, w := cw cp, b := Render.utf8Len cp }
+      let text (cps : List Nat) : List Pad.G := cps.flatMap (fun cp => if cp = 9 then Pad.spaces tabw else [g cp])
+      let digits (n : Nat) : List Pad.G := (toString n).toList.map (fun c => g c.toNat)
+      let env : Render.Env := {
+        W := W, tab := tabw, cw := cw,
+        custom := fun k => if k = "foo".toList then some (text (cpsOf foo)) else none,
+        builtin := fun k width =>
+          if k = "msg".toList then some (text (cpsOf msg))
+          else if k = "prefix".toList then some (text (cpsOf pfx))
+          else if k = "pos".toList then some (digits pos)
+          else if k = "len".toList then some (digits len)
+          else if k = "bar".toList then some (List.replicate (width.getD 20) (g fill))
+          else none,
+        msg := text (cpsOf msg),
+        bar := fun n => List.replicate n (g fill) }
+      match Template.parse Template.PFix.current ((cpsOf tpl).map Char.ofNat) with
+      | .ok parts =>
+        let lines := Render.formatState env parts
+        s!"n={lines.length} " ++ "|".intercalate (lines.map (fun l => if l = [] then "-" else ".".intercalate (l.map (fun x => toString x.cp))))
+      | .err _ _ => "parse-error"
+      | .panic => "parse-panic"
+    | _, _, _, _, _, _, _, _, _, _ => "bad-op"
+  | _ => "bad-op"
+
 def handle (line : String) : String :=
   match line.trimAscii.toString.splitOn " " with
   | "C05" :: rest => runC05 rest
@@ -478,6 +519,7 @@ def handle (line : String) : String :=
   | "TPL" :: rest => runTPL rest
   | "EST" :: _ => runEstimator ((line.trimAscii.toString.drop 3).toString)
   | "PAD" :: rest => runPAD rest
+  | "RENDER" :: rest => runRENDER rest
   | "ADAPT" :: _ => runADAPT ((line.trimAscii.toString.drop 6).toString)
   | "NOMODEL" :: _ => ""
   | "BARGEO" :: rest => runBARGEO rest
